@@ -324,6 +324,7 @@ def s5(ctx, rid):
 
 def s6(ctx, rid):
     prog = ctx.prog
+    SY = core.Summ(prog, prims.is_raw_sync)
     n = 0
     for f in prog.fns.values():
         for c in f.calls:
@@ -340,14 +341,25 @@ def s6(ctx, rid):
             if c.name != 'fetch_max':
                 ctx.bad(rid, key, c.where(), 'synced_size modified by `%s` (only fetch_max after an ok sync is allowed)' % c.name)
                 continue
-            syncs = [s for s in f.calls if prims.is_raw_sync(s)]
-            obs = [core.ok_block(f, s) for s in syncs]
-            obs = [o for o in obs if o is not None]
-            if not obs or c.bb in f.reach_from([0], avoid_enter=obs):
-                ctx.bad(rid, key, c.where(), 'synced_size advanced on a path without a completed ok sync_all')
-                continue
+            def unsynced(g, bb):
+                """`bb` of body `g` is reachable without a completed ok sync (a raw sync_*, or a helper that must perform one)"""
+                obs = []
+                for s2 in g.calls:
+                    if prims.is_raw_sync(s2) or any(t in prog.fns and SY.must(t) for t in prog.resolve(s2)):
+                        ob = core.ok_block(g, s2)
+                        if ob is not None:
+                            obs.append(ob)
+                return not obs or bb in g.reach_from([0], avoid_enter=obs)
+            sync_bodies = [f]
+            if unsynced(f, c.bb):
+                # a thin helper around the update (`fn note_synced(&self, size)`): the obligation moves to each of its call sites
+                sites = core.call_sites_of(prog, f.id) if f.kind != 'Closure' and not f.is_coroutine else []
+                if not sites or any(unsynced(cc.fn, cc.bb) for cc in sites):
+                    ctx.bad(rid, key, c.where(), 'synced_size advanced on a path without a completed ok sync_all')
+                    continue
+                sync_bodies = [cc.fn for cc in sites]
             ogs = core.origins_ip(prog, f, c.args[1], depth=1)
-            late = [o for o in ogs if o.fn.id == f.id and o.kind == 'call']
+            late = [o for o in ogs if o.fn.id in {g.id for g in sync_bodies} and o.kind == 'call']
             if late:
                 ctx.bad(rid, key, c.where(), 'the size recorded as synced is computed inside the sync closure (%s), not captured before the sync started' % late[0])
                 continue
